@@ -271,6 +271,10 @@ func init() {
 		st.hashRecs = append(st.hashRecs[:len(st.hashRecs):len(st.hashRecs)], &hashRec{key: key, in: bs, out: out})
 		return out
 	}
+	models["os.Hostname"] = func(e *Engine, st *State, args []Value, call *ssa.Call, pos token.Pos) Value {
+		modelsUsed["os.Hostname -> \"host\""]++
+		return TupleV{StringV{conc: "host"}, Iface{}}
+	}
 	models["(*sync.Mutex).TryLock"] = func(e *Engine, st *State, args []Value, call *ssa.Call, pos token.Pos) Value { return Bool(true) }
 	models["time.Now"] = func(e *Engine, st *State, args []Value, call *ssa.Call, pos token.Pos) Value {
 		// time.Time{wall uint64, ext int64, loc *Location}: wall without the monotonic bit, ext = seconds since year 1.
